@@ -134,7 +134,7 @@ func checkCase(c *Case, count bool) error {
 			continue
 		}
 		pats := r.Patterns(q.Method)
-		if strings.Contains(rp, "*") && hasBoth(pats) {
+		if rt.ExcludedE(rp, pats) {
 			if count {
 				stats.Excluded("open finding E: request contains '*' and the method has both a parameter and a catch-all")
 			}
@@ -251,7 +251,7 @@ func checkCase(c *Case, count bool) error {
 				}
 			}
 			xp := rx.Patterns(q.Method)
-			if irrelevant && !(strings.Contains(rp, "*") && hasBoth(xp)) {
+			if irrelevant && !rt.ExcludedE(rp, xp) {
 				if _, ok := ref.LookupAll(xp, host, rp); ok {
 					out2, err := serve(rx, q)
 					if err != nil {
